@@ -1,19 +1,25 @@
+//@ variant: first IDX=0
+//@ variant: second IDX=1
 //@ tu: libxcm/ctl/ctl.c
+//@ defs: -DXV_IDX=$IDX
 //@ enforce: remove_client
 //@ props: C14
-//@ expect: postcondition>=3 canary=3
+//@ expect: postcondition>=3 canary=2
 #include "_unit.h"
+/* the precondition admits client_idx 0 and 1 only (0 <= client_idx < num_clients <= MAX_CLIENTS == 2): the two variants are
+ * a complete case split; passing the index as a constant keeps every offset into the 76 KB struct ctl constant */
 void harness(void)
 {
     xv_ghost_havoc();
     xv_ctl_ghost_havoc();
     xv_ctl_g_foreign = nondet_bool(); xv_ctl_g_fev = nondet_int();
-    xv_ctl_g_fd = nondet_int(); xv_ctl_g_reg = nondet_int(); xv_ctl_g_ofd = nondet_int(); xv_ctl_g_oreg = nondet_int();
-    xv_ctl_g_opend = nondet_bool(); xv_ctl_g_oj = nondet_uchar();
-    struct ctl *ctl; int idx;
+    struct ctl *ctl;
     long e0 = xv_ctl_ep_ops;
-    remove_client(ctl, idx);
+    remove_client(ctl, XV_IDX);
+#if XV_IDX == 0
     if (xv_ctl_ep_ops == e0 + 1) XV_CANARY("table was not full: registration deleted only");
-    if (xv_ctl_ep_ops == e0 + 2 && xv_ctl_g_opend) XV_CANARY("table was full: listening descriptor re-armed, other session has a reply pending");
-    if (xv_ctl_ep_ops == e0 + 2 && !xv_ctl_g_opend) XV_CANARY("table was full, other session idle");
+#else
+    if (xv_ctl_closed_fd == 0) XV_CANARY("second session was on descriptor 0");
+#endif
+    if (xv_ctl_ep_ops == e0 + 2) XV_CANARY("table was full: listening descriptor re-armed");
 }
